@@ -20,6 +20,10 @@ def concretise(progs, pid, tier, seed, mult, rbufs=RBUFS, chunks=CHUNKS, tail=3)
             q["id"] = "%s-%s-%d-%d" % (pid, tier[0], i, m)
             q["rbuf"] = rnd.choice(rbufs)
             q["chunk"] = rnd.choice(chunks)
+            total = sum(max(f.get("len", 0), 0) for f in p.get("frames", []))
+            if total > 2000 and q["chunk"] == "byte":
+                q["chunk"] = "rand"
+            big = max([o.get("k", 0) for o in p.get("reads", [])] + [0])
             q["seed"] = rnd.randrange(1, 1 << 30)
             q["tail"] = tail
             c = p.get("cut")
